@@ -45,3 +45,18 @@ MANIFEST_TEXT["C02"] = {
     "note": "todo",
     "technique": "TLA+ language-layer semantics (TauLang) evaluated by TLC on traces recorded from the engine",
 }
+
+DEV_COND = '{"andor_unchecked"}'
+PROPS["C05"] = {
+    "title": "Condition grammar: fixed precedence, associativity and parentheses",
+    "models": lambda tier: [
+        {"module": "MC_Cond",
+         "constants": {"MaxLen": q(tier, 5, 6), "EmitRejLen": q(tier, 3, 4), "Wide": "FALSE", "Dev": DEV_COND},
+         "invariants": ["PrattIsRef", "RoundTrip", "Emit"],
+         "forms": ["accepted", "rejected"], "workers": 8},
+    ],
+    "gens": lambda tier: [],
+    "rules": ["oracle", "load_outcome", "load_panic", "match_panic"],
+    "chunk": 400,
+}
+MANIFEST_TEXT["C05"] = {"level": "todo", "note": "todo", "technique": "TLA+ reference grammar vs Pratt model, TLC; replay + trace validation"}
